@@ -72,9 +72,8 @@ impl Lexer {
     /// This function will update the current character and the position
     /// of the Lexer struct.
     fn consume_char(&mut self) {
-        // Get the next character
-        if let Some(ch) = self.peek(1) {
-            // Update the position
+        // Update the position according to the character being consumed
+        if let Some(ch) = self.current() {
             if ch == '\n' {
                 self.row += 1;
                 self.col = 0;
@@ -137,17 +136,16 @@ impl Lexer {
     /// This function will return a range with the start and end position
     /// being the current position of the lexer.
     fn get_range(&self) -> Range {
-        let mut end = self.get_pos();
-        end.increment_column();
-        Range::new(self.get_pos(), end)
+        // Ranges are inclusive: a one-character token starts and ends on the
+        // same character.
+        Range::new(self.get_pos(), self.get_pos())
     }
 
     /// Get the current position of the lexer.
     ///
     /// This function will return the current position of the lexer.
     fn get_pos(&self) -> Position {
-        let column = if self.col == 0 { 0 } else { self.col - 1 };
-        Position::new(self.row, column, self.pos)
+        Position::new(self.row, self.col, self.pos)
     }
 
     /// Lex a unicode escape code.
